@@ -25,6 +25,9 @@ if TYPE_CHECKING:
     from geometer.curve import Conic
     from geometer.utils.typing import NDArrayParameters, TensorIndex
 
+# defined at module level: as a class attribute it would shadow the Tensor.T property of transformations
+T = TypeVar("T", bound=Tensor)
+
 
 @overload
 def identity(dim: int, collection_dims: Literal[None] = None) -> Transformation: ...
@@ -196,8 +199,6 @@ class TransformationTensor(ProjectiveTensor, ABC):
 
     def __apply__(self, transformation: TransformationTensor) -> TransformationTensor:
         return TransformationCollection.from_array(matmul(transformation.array, self.array))
-
-    T = TypeVar("T", bound=Tensor)
 
     def apply(self, other: T) -> T:
         """Apply the transformation to another object.
